@@ -6,7 +6,11 @@ Regenerated from the source with `ast` (never imports the library):
       `none` as a result means "an exception escapes" (e.g. an unguarded os.environ[...] on an unset variable);
   (c) one row per decorator named in the property: through which functions the target is handed on, which function
       finally receives it, where is_enabled() is consulted (factory / decoration / per-call wrapper / never), what the
-      test evaluates to for both switch values, and whether the guarded statement returns the very parameter received.
+      test evaluates to for both switch values, and whether the guarded statement returns the very parameter received;
+  (d) for the class decorators: whether the per-member decorator handed to for_all_methods is applied to every member
+      while `decorate` runs (every occurrence of the name is the callee of a call made directly in `decorate`, or is
+      handed to a module-level helper *function* that does nothing else with it) — and not stored in an object / closure
+      that applies it later, on attribute access (which would move the read of the switch from decoration to first use).
 """
 import ast
 from extract import Skip, src, lean_str, lean_bool, HEADER
@@ -232,6 +236,52 @@ def eval_test(e, en):
     raise Skip(f'switch test outside the subset: `{ast.unparse(e)}`')
 
 
+def uses_of(stmts, name):
+    """(node, parent, inside a nested def/lambda/class?) for every Name `name` in the statements"""
+    out = []
+
+    def rec(n, parent, nested):
+        if isinstance(n, ast.Name) and n.id == name:
+            out.append((n, parent, nested))
+        for c in ast.iter_child_nodes(n):
+            rec(c, n, nested or isinstance(c, FUNC + (ast.Lambda, ast.ClassDef)))
+    for s in stmts:
+        rec(s, None, isinstance(s, FUNC + (ast.ClassDef,)))
+    return out
+
+
+def applied_at_once(stmts, name, funcs, depth=0):
+    """every occurrence of `name` in `stmts` is `name(..)` called on the spot, or hands it on to a module-level function that
+    only does the same with it (never stored, never captured by a nested function / lambda / class, never given to a class)"""
+    for node, parent, nested in uses_of(stmts, name):
+        if nested:
+            return False
+        if isinstance(parent, ast.Call) and parent.func is node:
+            continue                                                  # decorator(x): applied now
+        if isinstance(parent, ast.Call) and node in parent.args and isinstance(parent.func, ast.Name) and parent.func.id in funcs:
+            g = funcs[parent.func.id]
+            ps = params(g)
+            i = parent.args.index(node)
+            if i < len(ps) and depth < 3 and applied_at_once(strip_doc(g.body), ps[i], funcs, depth + 1):
+                continue
+            return False
+        if isinstance(parent, ast.keyword) and parent.arg is not None:
+            # find the call this keyword belongs to: handled by the caller below
+            continue
+        return False
+    # keywords: `helper(.., decorator=name)`
+    for s in stmts:
+        for c in ast.walk(s):
+            if isinstance(c, ast.Call):
+                for k in c.keywords:
+                    if isinstance(k.value, ast.Name) and k.value.id == name:
+                        if not (k.arg is not None and isinstance(c.func, ast.Name) and c.func.id in funcs and depth < 3
+                                and k.arg in params(funcs[c.func.id]) + [a.arg for a in funcs[c.func.id].args.kwonlyargs]
+                                and applied_at_once(strip_doc(funcs[c.func.id].body), k.arg, funcs, depth + 1)):
+                            return False
+    return True
+
+
 class Resolver:
     def __init__(self, repo):
         self.funcs = {}
@@ -351,7 +401,12 @@ class Resolver:
             fac_calls += [n for d in nested_defs([s for s in fbody if isinstance(s, FUNC)]) for n in ast.walk(d) if is_enabled_call(n)]
         r = {'name': name, 'chain': st['chain'], 'pass': st['pass'], 'inner': st['inner'],
              'reqdoc': bool(st['consts'].get('require_docstring', False)),
-             'level': 'never', 'first': False, 'gE': False, 'gD': False, 'ret': False, 'also': False}
+             'level': 'never', 'first': False, 'gE': False, 'gD': False, 'ret': False, 'also': False, 'eager': True}
+        if st['inner']:
+            # class decorators: the per-member decorator is the factory's first parameter (for_all_methods(decorator))
+            fac = st['factory']
+            fps = params(fac) if fac is not None else []
+            r['eager'] = bool(fps) and applied_at_once(body, fps[0], self.funcs)
         if direct:
             r['level'] = 'decoration'
             idx = [i for i, s in enumerate(body) if any(is_enabled_call(n) for n in direct_nodes([s]))]
@@ -388,7 +443,8 @@ def gen_switch(repo):
         return (f'  {{ name := {lean_str(r["name"])}, chain := [{chain}],\n'
                 f'    passThrough := {lean_bool(r["pass"])}, inner := {lean_str(r["inner"])}, requireDocstring := {lean_bool(r["reqdoc"])},\n'
                 f'    readAt := .{r["level"]}, untouchedBefore := {lean_bool(r["first"])}, guardIfEnabled := {lean_bool(r["gE"])}, '
-                f'guardIfDisabled := {lean_bool(r["gD"])}, returnsReceived := {lean_bool(r["ret"])}, wrapperAlsoReads := {lean_bool(r["also"])} }}')
+                f'guardIfDisabled := {lean_bool(r["gD"])}, returnsReceived := {lean_bool(r["ret"])}, wrapperAlsoReads := {lean_bool(r["also"])},\n'
+                f'    membersEager := {lean_bool(r["eager"])} }}')
     return HEADER.format(rel=f'{ENV_REL}, {FN_REL}, {CLS_REL}') + f'''namespace PedVerif.Gen.Switch
 
 /-- `ENVIRONMENT_VARIABLE_NAME` -/
@@ -423,6 +479,8 @@ structure Row where
   guardIfDisabled : Bool       -- value of that test when is_enabled() is False
   returnsReceived : Bool       -- the guarded statement is `return <the very parameter that received the target>`
   wrapperAlsoReads : Bool      -- besides the test at decoration level, a nested function calls is_enabled() as well
+  membersEager : Bool          -- class decorators: the per-member decorator is applied to every member while the receiver runs,
+                               -- never stored to be applied later (on attribute access); function decorators: true
 deriving DecidableEq, Repr
 
 def rows : List Row := [
